@@ -35,6 +35,8 @@ func init() {
 }
 
 func runC15(c *an.Ctx) {
+	c.Inf("C15-R6", "hand-off sweep", token.NoPos, "%d hand-offs of a fresh object to a function that keeps it examined in dnssvc and cmd",
+		sharedRetainedArgs(c, "C15-R6", "dnssvc.", "cmd."))
 	c.Floor("C15-R7", 1)
 	mainPipeline(c, "C15-R7")
 	c.Floor("C15-R1", 1)
